@@ -52,3 +52,60 @@ def make_datetime_class(clock):
     SimDateTime.__name__ = 'datetime'
     SimDateTime.__qualname__ = 'datetime'
     return SimDateTime
+
+
+def install_clock_seam(module, clock):
+    """Rebind every module-level name of `module` that refers to the real clock (the
+    datetime class, the datetime module, the time module) to a simulated equivalent.
+    Returns a dict name -> original value for restoring.  The usual case is one
+    name (`datetime`); the rest makes the seam survive an innocent refactoring such as
+    `import datetime as dt` / `import time`."""
+    import time as _time
+    import types
+    sim_dt = make_datetime_class(clock)
+    saved = {}
+
+    class _DateTimeModuleProxy(types.ModuleType):
+        def __getattr__(self, name):
+            return getattr(_dt, name)
+    dt_proxy = _DateTimeModuleProxy('datetime')
+    dt_proxy.datetime = sim_dt
+
+    class _SimDate(_dt.date):
+        @classmethod
+        def today(cls):
+            v = clock.read()
+            return cls(v.year, v.month, v.day)
+    dt_proxy.date = _SimDate
+
+    class _TimeModuleProxy(types.ModuleType):
+        def __getattr__(self, name):
+            return getattr(_time, name)
+
+    def _epoch():
+        v = clock.read()
+        return (v - _dt.datetime(1970, 1, 1)).total_seconds()
+    t_proxy = _TimeModuleProxy('time')
+    t_proxy.time = _epoch
+    t_proxy.localtime = lambda secs=None: _time.gmtime(_epoch() if secs is None else secs)
+    t_proxy.gmtime = lambda secs=None: _time.gmtime(_epoch() if secs is None else secs)
+    t_proxy.strftime = lambda fmt, t=None: _time.strftime(fmt, t_proxy.gmtime() if t is None else t)
+    for name, val in list(vars(module).items()):
+        if val is _dt.datetime:
+            saved[name] = val
+            setattr(module, name, sim_dt)
+        elif val is _dt:
+            saved[name] = val
+            setattr(module, name, dt_proxy)
+        elif val is _time:
+            saved[name] = val
+            setattr(module, name, t_proxy)
+        elif val is _dt.date:
+            saved[name] = val
+            setattr(module, name, _SimDate)
+    return saved
+
+
+def restore_seam(module, saved):
+    for name, val in saved.items():
+        setattr(module, name, val)
